@@ -8,7 +8,7 @@ EXTENDS MC_Thermdat, Json, IOUtils, ThermdatSetSeq
 
 Shard == atoi(IOEnv.SHARD)
 NShard == atoi(IOEnv.NSHARD)
-Pool == IF IOEnv.CASESET = "full" THEN MCLists ELSE MCSmall \cup {<<SpOf(a), SpOf(b), SpOf(c)>> : a \in {3, 5}, b \in {1, 4}, c \in {2, 8}}
+Pool == IF IOEnv.CASESET = "full" THEN MCLists ELSE MCSmall \cup {<<SpOf(a), SpOf(b), SpOf(c)>> : a \in {3, 5, 9}, b \in {1, 4, 10}, c \in {2, 8}}
 \* a deterministic key of a list, to split the pool
 SpKey(s, k) == s.name[1] + 3 * Len(s.name) + 7 * k + Len(s.elems) + s.phase + Len(s.notes) + s.T[1][1] + (s.ah[1][2] % 11)
 KeyOf(L) == LET f[k \in 0..Len(L)] == IF k = 0 THEN 0 ELSE f[k - 1] + SpKey(L[k], k) IN f[Len(L)]
